@@ -14,6 +14,7 @@ type variantSpec struct{ kind, variant string }
 
 var failVariants = []variantSpec{
 	{"error", "errorf"}, {"error", "error"}, {"error", "fail"},
+	{"error", "error-noargs"}, {"error", "errorf-empty"}, {"error", "fail-then-errorf-empty"},
 	{"fatal", "fatalf"}, {"fatal", "fatal"}, {"fatal", "failnow"},
 	{"panic", "panicstr"}, {"panic", "panicerr"}, {"panic", "nilderef"},
 }
@@ -24,7 +25,8 @@ func failStmt(v variantSpec, id int, next *Stmt) *Stmt {
 }
 
 var contexts = []string{"body", "body-then-skip", "action", "action-then-skip", "invariant", "custom", "custom-then-skip",
-	"custom-in-slice", "cleanup", "cleanup-in-custom", "cleanup-in-action", "nested-custom", "filtered-custom", "cleanup-then-skip-body"}
+	"custom-in-slice", "cleanup", "cleanup-in-custom", "cleanup-in-action", "nested-custom", "filtered-custom", "cleanup-then-skip-body",
+	"body-before-skipping-cleanup", "cleanup-before-skipping-cleanup"}
 
 // position: how the failing case is reached.  trig = the triggering condition on a drawn value
 func wrapPosition(pos string, body *Stmt) *Stmt {
@@ -73,6 +75,10 @@ func buildContext(ctx string, v variantSpec) *Stmt {
 		return &Stmt{Op: "cleanup", Id: 3, A: failStmt(v, 1, retUnit()), Next: drawThen(leaf, retUnit())}
 	case "cleanup-then-skip-body":
 		return &Stmt{Op: "cleanup", Id: 3, A: failStmt(v, 1, retUnit()), Next: drawThen(leaf, skip)}
+	case "body-before-skipping-cleanup": // a cleanup function that calls Skip runs after the body has failed
+		return &Stmt{Op: "cleanup", Id: 3, A: skip, Next: drawThen(leaf, failStmt(v, 1, retUnit()))}
+	case "cleanup-before-skipping-cleanup": // the failing cleanup runs first (registered last), then one that calls Skip
+		return &Stmt{Op: "cleanup", Id: 3, A: skip, Next: &Stmt{Op: "cleanup", Id: 4, A: failStmt(v, 1, retUnit()), Next: drawThen(leaf, retUnit())}}
 	case "cleanup-in-custom":
 		return drawThen(customOf(&Stmt{Op: "cleanup", Id: 3, A: failStmt(v, 1, retUnit()), Next: drawThen(leaf, retv)}), retUnit())
 	case "cleanup-in-action":
